@@ -23,8 +23,13 @@ Trace == ndJsonDeserialize(TraceFile)
 \* is skipped: has a Logon that could be approved at all (well formed; for an acceptor also with acceptable credentials, heartbeat
 \* interval and encryption method) been received since the session was created?  A session that reports itself logged on without
 \* one violates C06 whatever else went wrong before.
-VARIABLES l, s, skip, appr
-vars == <<l, s, skip, appr>>
+\* ids: a second history monitor of the same kind (C05): from the first well-formed, numbered Logon on - approved or refused - an
+\* accepting session knows its peer (it mirrors the identifiers of that Logon), an initiating one is configured with them: every
+\* message it sends carries them.  (Not for the two-real-sessions traces "dx-", where the identifiers are the other way round.)
+VARIABLES l, s, skip, appr, ids
+vars == <<l, s, skip, appr, ids>>
+
+
 
 GoodLogon(c, a) ==
   /\ a.a = "logon" /\ a.integ = "none" /\ a.sq = "ok"
@@ -32,6 +37,18 @@ GoodLogon(c, a) ==
 
 Rej(prop, r, what, detail) ==
   PrintT("REJECT " \o ToJson(<<prop, r.id \o "#" \o ToString(r.i), what, detail>>))
+
+OurId == <<83, 82, 86>>        \* "SRV"  (harness/sess: ourID)
+PeerId == <<80, 69, 69, 82>>   \* "PEER"
+KnowsPeer(c, a) == c.role = "initiator" \/ (a.a = "logon" /\ a.integ = "none" /\ a.sq = "ok")
+IsDuplexTrace(r) == Len(r.id) >= 3 /\ SubSeq(r.id, 1, 3) = "dx-"
+IdsOk(r, known) ==
+  \* (what is retransmitted at the peer's request is not "sent through the session" anew: a shared store may hold another
+  \*  session's messages under the requested numbers)
+  (known /\ ~IsDuplexTrace(r) /\ r.a.a # "resend") =>
+     ((\A j \in 1..Len(r.outs) : r.outs[j].sender = "SRV" /\ r.outs[j].target = "PEER")
+        \/ Rej("C05", r, "a message does not carry the session's sender and target identifiers",
+               [outs |-> [j \in 1..Len(r.outs) |-> <<r.outs[j].ty, r.outs[j].sender, r.outs[j].target>>]]))
 
 
 CfgOf(c) == [role |-> c.role, hbMin |-> c.hbMin, hbMax |-> c.hbMax, hbCfg |-> c.hbCfg, encCfg |-> c.encCfg,
@@ -160,7 +177,7 @@ RECURSIVE AdvWalk(_, _, _, _, _)
 AdvWalk(x, r, j, td, tEnd) ==
   LET nextT == IF j <= Len(r.outs) THEN r.outs[j].t ELSE tEnd + 1
   IN
-  IF Failing(x) /\ j = 1 THEN FailWalk(x, r, td, tEnd)
+  IF x.saveFailFrom > 0 /\ Failing(x) /\ j = 1 THEN FailWalk(x, r, td, tEnd)
   ELSE IF td >= 0 /\ td < nextT THEN
      \* the disconnect notification comes first
      LET m == MissedBefore(x, td)
@@ -243,7 +260,8 @@ StepResult(s0, r) ==
                       /\ MatchSeq(SubSeq(exp, 1, Len(exp) - 1), SubSeq(r.outs, 1, Len(exp) - 1))
                       /\ exp[Len(exp)].ty = "2"
          tag == TagOf(x0, a, IF gapOnly THEN "gap" ELSE "x")
-         evOk == (s0.stopAt >= 0 \/ a.a = "stop")   \* Stop() clears every registered callback, the harness' too
+         evOk == (s0.stopAt >= 0 \/ a.a = "stop" \/ s0.ctxDone)   \* Stop() clears every registered callback, the harness' too (with a close
+                                                                  \* timeout of 0 the context is cancelled at once and no deadline is pending)
                    \/ EvNames(r.events) = SelectSeq(SubSeq(x1.events, Len(x0.events) + 1, Len(x1.events)), LAMBDA e : e \in WatchedEvents)
          \* Observations that do not feed back into what the specification expects next (IsLogged, the context, the notifications) are
          \* reported and the walk CONTINUES with the specification's state: what a wrong state leads to later (a second Logout, a
@@ -277,14 +295,19 @@ StepResult(s0, r) ==
 
 Dummy == InitState([role |-> "acceptor", hbMin |-> 1, hbMax |-> 1, hbCfg |-> 1, encCfg |-> "0", allowed |-> {"0"}, closeMs |-> 0, startSeq |-> 0])
 
-Init == l = 1 /\ s = Dummy /\ skip = FALSE /\ appr = FALSE
+Init == l = 1 /\ s = Dummy /\ skip = FALSE /\ appr = FALSE /\ ids = FALSE
 
 Next ==
   /\ l <= Len(Trace)
   /\ l' = l + 1
   /\ LET r == Trace[l]
-     IN IF r.k = "init" THEN s' = [InitState(CfgOf(r.cfg)) EXCEPT !.saveFailFrom = r.cfg.saveFailFrom] /\ skip' = FALSE /\ appr' = FALSE
+     IN IF r.k = "init" THEN s' = [InitState(CfgOf(r.cfg)) EXCEPT !.saveFailFrom = r.cfg.saveFailFrom, !.saveFailOnly = r.cfg.saveFailOnly,
+                                                              !.user = IF r.cfg.creds \in {"", "useronly"} THEN CfgUser ELSE "",
+                                                              !.pass = IF r.cfg.creds \in {"", "passonly"} THEN CfgPass ELSE ""] /\ skip' = FALSE /\ appr' = FALSE /\ ids' = FALSE
         ELSE /\ appr' = (appr \/ GoodLogon(s.cfg, r.a))
+             \* (an accepting session adopts the identifiers when it handles the Logon while waiting for one)
+             /\ ids' = (ids \/ (KnowsPeer(s.cfg, r.a) /\ (s.cfg.role = "initiator" \/ (~skip /\ s.st = "WL"))))
+             /\ (IdsOk(r, ids') \in BOOLEAN)
              /\ IF skip
                 THEN /\ UNCHANGED <<s, skip>>
                      /\ ((IF r.logged /\ ~appr'
